@@ -1,1 +1,4 @@
 // Kani harnesses (cfg(kani) only); pulled in by a #[path] hook in /repo.
+
+// Concrete playback (./check <id> --replay): Kani's generated unit test is written to this file, which is empty otherwise.
+include!("/verif/build/gen/playback_rustemo_glr_gss.rs");
